@@ -187,7 +187,8 @@ func (c *Ctx) quick() bool { return c.Tier != "thorough" }
 var hangs atomic.Int64
 
 // how standard input reaches crd is rotated by a hash of the request (so a request always travels the same way): mostly a
-// pipe fed at once, one run in eight redirected from a regular file (`< file`), one in eight a slow pipe
+// pipe fed at once, one run in eight redirected from a regular file (`< file`), one in eight a slow pipe, one in sixteen a
+// regular file positioned behind a first line that "somebody else" has read
 func requestHash(args []string, stdin []byte) uint32 {
 	h := fnv.New32a()
 	for _, a := range args {
@@ -213,11 +214,13 @@ func stdinModeFor(args []string, stdin []byte) string {
 	if len(stdin) == 0 || len(stdin) > 1<<16 {
 		return ""
 	}
-	switch requestHash(args, stdin) % 8 { // the low bits choose the input route
-	case 0:
+	switch requestHash(args, stdin) % 16 { // the low bits choose the input route
+	case 0, 1:
 		return "file"
-	case 1:
+	case 2, 3:
 		return "slow"
+	case 4:
+		return "fileoff"
 	}
 	return ""
 }
@@ -319,7 +322,7 @@ func (c *Ctx) crdVia(args []string, input []byte, via string) run.Result {
 	case "dash":
 		cmd.Stdin, cmd.Args = input, append(cmd.Args, "-")
 	case "file":
-		f := c.writeTemp(fmt.Sprintf("via%d", nextID()), string(input))
+		f := c.writeTemp(fmt.Sprintf("via%d $HOME ~x ${USER} %%d", nextID()), string(input)) // (a name is a name: nothing in it is expanded)
 		defer os.Remove(f)
 		cmd.Args = append(cmd.Args, f)
 	case "relfile": // a FILE named relative to a working directory that is not where crd lives
